@@ -47,7 +47,8 @@ structure RT where
 structure PinsIn where
   gen    : List Pin      -- pins added to the source state, in order
   prior  : List Pin      -- pins the target held before the round trip
-  damage : Nat           -- 0: the export stream is imported as written; else it is cut/garbled first
+  damage : Nat           -- 0: the export stream is imported as written; 1-3: cut/garbled first;
+                         -- 4-7: reshaped only (no final newline, extra whitespace, one line, CRLF)
   deriving Repr
 
 structure PinsOut where
@@ -65,9 +66,13 @@ def rtSame (src : List Pin) : Option RT → Bool
 
 def pinsWf (i : PinsIn) : Bool := i.gen.all wfPin && i.prior.all wfPin
 
+/-- the stream still is the exported sequence of JSON documents (white space between documents
+    is not part of them) -/
+def harmless (damage : Nat) : Bool := damage == 0 || decide (4 ≤ damage)
+
 def pinsClauses (i : PinsIn) (o : PinsOut) : List (String × Bool) :=
   if !pinsWf i then [] else
-  (if i.damage == 0 then
+  (if harmless i.damage then
     [("export_import_id", rtSame o.src o.exp), ("export_import_crdt_id", rtSame o.src o.expc)] else []) ++
   [("marshal_unmarshal_id", rtSame o.src o.mar),
    ("snapshot_offline_id", rtSame o.src o.snap),
@@ -179,10 +184,20 @@ def contiguous (l : List Nat) : Bool := nodupNat (collapse l)
 def linePeers (self : Nat) (file : List Line) : List Nat :=
   file.filterMap (fun l => match l with | .full _ p => if p == self then none else some p | _ => none)
 
-def fileClauses (self : Nat) (file : List Line) (o : FileOut) : List (String × Bool) :=
-  [("bad_lines_skipped", !o.panic && o.loaded == (file.filter Line.loads).map some)] ++
-  (if contiguous (linePeers self file) then
-     [("ps_same_priority_order", o.order == dedupKeepFirst (linePeers self file))] else [])
+/-- The lines of the file that are multiaddresses as written: a parsable text, ended by "\n" or
+    "\r\n" or the end of the file (a second "\r" belongs to the text and spoils it); a byte order
+    mark belongs to the text of the first line. -/
+def validLines (sh : FileShape) : List FLine → List Line
+  | [] => []
+  | fl :: t => (if fl.l.loads && decide (fl.cr ≤ 1) && !sh.bom then [fl.l] else []) ++
+      (t.filter (fun x => x.l.loads && decide (x.cr ≤ 1))).map (·.l)
+
+/-- every parsable line of the file is loaded (and nothing else), in file order — whatever the
+    line ends and whether or not the last line is terminated -/
+def fileClauses (self : Nat) (sh : FileShape) (file : List FLine) (o : FileOut) : List (String × Bool) :=
+  [("bad_lines_skipped", !o.panic && o.loaded == (validLines sh file).map some)] ++
+  (if contiguous (linePeers self (validLines sh file)) then
+     [("ps_same_priority_order", o.order == dedupKeepFirst (linePeers self (validLines sh file)))] else [])
 
 def allHold (cs : List (String × Bool)) : Bool := cs.all (·.2)
 
